@@ -4,7 +4,7 @@ from __future__ import annotations
 
 from .. import gen, probe, spec
 from ..probe import violation
-from .common import call
+from .common import call, grow_while_asking
 
 PROP = "C07"
 LEVEL = "exploration"
@@ -61,7 +61,19 @@ def run_case(ctx, g, rng):
                 recs[recs.index(r0)] = r0._replace(usyn=r0.usyn + (cand,))
             elif r0.uri_prefix not in taken_p and d not in r0.uri_prefix:
                 recs[recs.index(r0)] = r0._replace(psyn=r0.psyn + (r0.uri_prefix,))
-        c, how = gen.build(api, recs, d, rng)
+        if g % 3 == 1:
+            strings = [p + d + "1" for r in recs for p in spec.all_p(r)][:6] + [u + "1" for r in recs for u in spec.all_u(r)][:6]
+
+            def ask(cc, s):
+                call(cc.parse, s, strict=False)
+                call(cc.is_uri, s)
+                call(cc.is_curie, s)
+                call(cc.compress_or_standardize, s)
+                call(cc.expand_or_standardize, s)
+
+            c, how = grow_while_asking(api, recs, d, rng, ask, strings), "asked-while-growing"
+        else:
+            c, how = gen.build(api, recs, d, rng)
     sp = spec.SpecConverter(recs, d)
     w = {"records": [spec.rec_dict(r) for r in recs], "delimiter": d}
     allp = [p for r in recs for p in spec.all_p(r)]
